@@ -11,6 +11,11 @@ CHECKS = {
    "Generated-input search: random expression ASTs printed with minimal parentheses must parse to the same Statement (Debug) as their fully parenthesised text; the table of all operator pairs x shapes is enumerated completely. Exploration, not proof: absence of a violation beyond the enumerated pairs is sampled.",
    "Debug(Statement) is structural; the fully parenthesised text leaves the parser no grouping freedom; reference grammar = the precedence list in the property statement.",
    "DESIGN.md §3 C13"),
+ "C20": (True,
+   "property-based testing: metamorphic parse equality under layout variants (case, whitespace, comments, semicolon, all clause permutations), proptest",
+   "Generated-input search: valid statements as token lists are re-laid out at true token boundaries; every variant must parse to the same Statement (Debug) as the canonical text and carry the intended literal strings; per case all permutations of the present clauses are enumerated. Exploration, not proof.",
+   "Debug(Statement) is structural; the generator's token boundaries are those of the documented syntax; two-character operators are <= >= != => :: and --.",
+   "DESIGN.md §3 C20"),
 }
 
 NOT_YET = {
